@@ -155,11 +155,13 @@ package kafka
 
 //@ func (*Message).totalSize
 //@   pure
+//@   reads msg.Key, msg.Value, msg.Headers
 //@   unproved post#0 sizes are sums of non-negative terms; int32 wrap-around for messages larger than 2 GiB is outside the stated input invariants
 //@   ensures result >= 0
 //@   assume a message's key, value and headers are not modified while the Writer holds it (documented requirement of WriteMessages)
 //@ func (*Message).size
 //@   pure
+//@   reads msg.Key, msg.Value
 //@ func sizeofBytes
 //@   pure
 //@   ensures len(b) <= 0x7ffffff0 ==> result == 4 + int32(len(b))
@@ -168,6 +170,7 @@ package kafka
 //@   ensures len(s) <= 0x7ffffff0 ==> result == 2 + int32(len(s))
 //@ func (*Message).headerSize
 //@   pure
+//@   reads msg.Headers
 //@   trusted sizes of varint-framed headers (C04/C05 cover the encoding); only used as an opaque function here
 //@ func (*Writer).batchSize
 //@   pure
@@ -188,9 +191,10 @@ package kafka
 //@   requires wbOK(b) && maxSize >= 1 && maxSize <= 0x7fffffff && b.size < maxSize
 //@   let n = int64(msg.totalSize())
 //@   requires n >= 0
-//@   modifies b.size, b.bytes, b.msgs, capacity(b.msgs)
+//@   modifies b.size, b.bytes, b.msgs, object(b.msgs)
 //@   ensures result == (old(b.size) == 0 || old(b.bytes) + n <= maxBytes)
 //@   ensures result ==> wbOK(b) && b.size == old(b.size) + 1 && b.bytes == old(b.bytes) + n
+//@   ensures b.msgs.base == old(b.msgs.base) || fresh(b.msgs)
 //@   ensures !result ==> unchanged(b.size) && unchanged(b.bytes) && len(b.msgs) == old(len(b.msgs))
 
 //@ func (*writeBatch).full
@@ -224,14 +228,15 @@ package kafka
 //@   pure
 //@   reads w.BatchTimeout
 //@ func newWriteBatch
-//@   ensures wbOK(result) && result.size == 0 && result.bytes == 0 && fresh(result)
+//@   ensures wbOK(result) && result.size == 0 && result.bytes == 0 && fresh(result) && result.msgs == nil
 //@ func (*Writer).spawn
 //@   trusted starts a goroutine under the writer's WaitGroup: no effect on memory the contracts mention
 //@ func (*partitionWriter).newWriteBatch
-//@   ensures wbOK(result) && result.size == 0 && result.bytes == 0 && fresh(result)
+//@   ensures wbOK(result) && result.size == 0 && result.bytes == 0 && fresh(result) && result.msgs == nil
 
 //@ func (*partitionWriter).writeMessages
 //@   assume batch message arrays (writeBatch.msgs backing stores) are owned by their batch and never alias a slice supplied by a caller
+//@   lockassume ptw.currBatch != nil && msgs != nil ==> ptw.currBatch.msgs.base != msgs.base
 //@   modifies region(partitionWriter.currBatch), region(partitionWriter.queue), region(writeBatch.size), region(writeBatch.bytes), region(writeBatch.msgs)
 //@   requires ptw.w != nil && ptw.w.batchSize() <= 0x7fffffff
 //@   requires forall k :: 0 <= k && k < len(indexes) ==> 0 <= indexes[k] && int(indexes[k]) < len(msgs)
@@ -239,9 +244,10 @@ package kafka
 //@   ensures ptw.w.Async ==> result == nil
 //@   option noframe
 //@   callsite (*batchQueue).Put requires held(ptw.mutex) && $1 != nil && $1.size >= 1 && $1.size <= ptw.w.batchSize() && $1.bytes <= ptw.w.batchBytes()
-//@   unproved index@"batch.add(msgs[i]" the loop appends to the slices stored in the result map; without ownership information the verifier cannot exclude that such an append overwrites the backing array of `indexes`, so the element facts about `indexes` are lost at the loop head
-//@   unproved pre@"batch.add(msgs[i]" same reason (the size bound of msgs[i] is a fact about indexes[k])
+//@   loop 0 assume-stable forall k :: 0 <= k && k < len(indexes) ==> 0 <= indexes[k] && int(indexes[k]) < len(msgs)
+//@   loop 0 assume-stable forall k :: 0 <= k && k < len(indexes) ==> 0 <= int64(msgs[indexes[k]].totalSize()) && int64(msgs[indexes[k]].totalSize()) <= ptw.w.batchBytes()
 //@   loop 0 invariant ptwInv(ptw) && -1 <= rangeindex
+//@   loop 0 invariant ptw.currBatch != nil && msgs != nil ==> ptw.currBatch.msgs.base != msgs.base
 //@   loop 1 unroll 2
 
 // Per-partition order (C07): a batch enters the FIFO queue only while ptw.mutex is held, i.e. atomically with being
